@@ -86,6 +86,31 @@ class Space:
                     fc = FILLCLS.get(fill, 'comment' if '/*' in fill else 'ws')
                     yield {'ent': ename, 'site': 'lex', 'detail': 'd%d:%s|%s|%s' % (min(depth, 2), pg, ng, fc), 'fill': fill,
                            'text': self.file([t])}
+        # two deviations (thorough): every value alternative x every filler in every gap of the resulting instance (kind entities),
+        # every pair of value alternatives (pair entities)
+        if full and ename.startswith(('e_', 'o_')) and len(pa) == 1 and not pa[0][2]:
+            alts = self.lits.alts(pa[0][1].type)
+            for alt in alts[1:]:
+                toks = p21run.tokenize(smodel.inst_text(10, E, [alt]))
+                depth = 0
+                for g in range(len(toks) + 1):
+                    prev = p21run.tokclass(toks[g - 1]) if g > 0 else '^'
+                    nxt = p21run.tokclass(toks[g]) if g < len(toks) else '$'
+                    if prev == '(':
+                        depth += 1
+                    if prev == ')':
+                        depth -= 1
+                    grp = lambda c: 'val' if c in ('int', 'real', 'str', 'bin', 'enum', 'ref', '$', '*') else c
+                    for fill in (' ', '\n', '/*c*/'):
+                        t = ''.join(toks[:g]) + fill + ''.join(toks[g:])
+                        fc = 'comment' if '/*' in fill else 'ws'
+                        yield {'ent': ename, 'site': 'lex', 'attr': 0, 'detail': 'd%d:%s|%s|%s' % (min(depth, 2), grp(prev), grp(nxt), fc), 'fill': fill, 'text': self.file([t]), 'two': alt}
+        if full and ename.startswith('p_') and len(pa) == 2:
+            a0 = self.lits.alts(pa[0][1].type)
+            a1 = self.lits.alts(pa[1][1].type)
+            for x in a0[1:]:
+                for y in a1[1:]:
+                    yield {'ent': ename, 'site': 'value', 'attr': 0, 'detail': x, 'text': self.file([smodel.inst_text(10, E, [x, y])]), 'two': y}
         # structural sites
         yield {'ent': ename, 'site': 'order', 'detail': 'forward-refs', 'text': self.file([smodel.inst_text(10, E, base)], order='before')}
         if not ename.startswith('p_') or full:
@@ -334,7 +359,27 @@ def main():
         for c in sp.header_cases():
             c['family'] = fam.name
             cases.append(c)
-        results = p21run.run_many(lib, cases, chunksize=16)
+        # two-deviation cases are explored only from single deviations that themselves pass (bounded-deviation discipline)
+        singles = [c for c in cases if 'two' not in c]
+        doubles = [c for c in cases if 'two' in c]
+        sres = p21run.run_many(lib, singles, chunksize=16)
+        failing = set()
+        for c, r in zip(singles, sres):
+            if c['site'] == 'value' and compare(fam, c, r):
+                failing.add((c['ent'], c.get('attr', 0), c['detail']))
+        keep = []
+        for c in doubles:
+            if c['site'] == 'lex':
+                if (c['ent'], 0, c['two']) in failing:
+                    continue
+            else:
+                if (c['ent'], 0, c['detail']) in failing or (c['ent'], 1, c['two']) in failing:
+                    continue
+            keep.append(c)
+        dres = p21run.run_many(lib, keep, chunksize=16) if keep else []
+        cases = singles + keep
+        results = sres + dres
+        chk.extra.setdefault('two_deviation_cases', {})[fam.name] = {'generated': len(doubles), 'explored': len(keep)}
         crashed_defaults = 0
         iso = {}
         for c, r in zip(cases, results):
